@@ -64,7 +64,7 @@ def _backend(name):
 def _blank_obs():
     return {"raised": False, "exc": "", "unrepresentable": False, "len": -1, "cls": "", "max": None,
             "roundtrip": None, "q": [], "keys": [], "totc": [], "tot0": [], "totcT": [], "tot0T": [],
-            "qarr": [], "totd": [], "scA": [], "scK": [], "eqc": []}
+            "qarr": [], "totd": [], "scA": [], "scK": [], "eqc": [], "eqcs": [], "eqcp": [], "mut": []}
 
 
 def _mant(x, e):
@@ -139,6 +139,15 @@ def observe_all(inp, tolz, tolnz):
         es, names = ec.build_system(species, nu, [num(k) for k in k0], spform=spf, written=written)
         ns = ec.numsys_class(inp["ns"])(es, backend=_backend(bk), rref_equil=bool(inp["re"]),
                                         rref_preserv=bool(inp["rp"]), new_eq_params=bool(nep))
+        # history: ANOTHER residual object of the same system (other formulation, other flags) lives and is
+        # used in the same process before the object under test is evaluated
+        try:
+            c_first = [float(v) for v in values(evs[0]["c"], evs[0]["dexp"])]
+            other = ec.numsys_class("Log" if inp["ns"] != "Log" else "Lin")(
+                es, backend=sympy, rref_equil=not bool(inp["re"]), rref_preserv=not bool(inp["rp"]))
+            other.f([sympy.Float(1.0)] * n_sp, [sympy.Float(v) for v in rev(c_first)] + [sympy.Float(float(k)) for k in k0])
+        except Exception:
+            pass
     except Exception as ex:
         build_exc = ex
     out = []
@@ -151,6 +160,9 @@ def observe_all(inp, tolz, tolnz):
                 raise build_exc
             xc, xc0, xk = values(ev["c"], dexp), values(ev["c0"], dexp), values(ev["K"], kexp)
             consts = [num(k) for k in xk]
+            if not nep:      # own constants: reassign them on the system's equilibria, then call
+                for rxn, k in zip(es.rxns, consts):
+                    rxn.param = k
             c = rev([num(v) for v in xc])
             c0 = rev([num(v) for v in xc0])
             params = c0 + (consts if nep else [])
@@ -166,7 +178,15 @@ def observe_all(inp, tolz, tolnz):
                     y2, _ = ns.pre_processor(np.array([float(v) for v in c]), np.array(fparams))
                     if all(np.isfinite(y2)):
                         obs["roundtrip"] = max(obs["roundtrip"], ec.roundtrip_error(ns, list(y2), c, fparams))
+                if bk == "numpy":          # array arguments
+                    y, params = np.array(y, dtype=float), np.array(params, dtype=float)
+                y_before, p_before = [v for v in y], [v for v in params]
                 f = ns.f(y, params)
+                # frame: a call modifies none of its arguments
+                if len(y) != len(y_before) or any(a != b for a, b in zip(y, y_before)):
+                    obs["mut"].append("y")
+                if len(params) != len(p_before) or any(a != b for a, b in zip(params, p_before)):
+                    obs["mut"].append("params")
                 obs["len"] = len(f)
                 obs["cls"], obs["max"] = ec.classify_residual(f, tolz, tolnz)
         except Exception as ex:  # projected: exception -> class name
@@ -199,8 +219,16 @@ def observe_all(inp, tolz, tolnz):
             A, ks = es.stoichs_constants(eq_params=values(ev["K"], kexp), rref=False, backend=sympy)
             obs["scA"] = [rev([int(v) for v in row]) for row in np.asarray(A).tolist()]
             obs["scK"] = [_mant(k, int(e)) for k, e in zip(ks, kexp)]
-            obs["eqc"] = [(_mant(k, int(e)) if exact else _fmant(k, int(e)))
-                          for k, e in zip(es.eq_constants(), evs[0]["Kexp"])]
+            kx = kexp if not nep else evs[0]["Kexp"]
+            proj = _mant if exact else _fmant
+            obs["eqc"] = [proj(k, int(e)) for k, e in zip(es.eq_constants(), kx)]
+            obs["eqcs"] = [proj(k, int(e)) for k, e in zip(es.eq_constants(small=1e-30), kx)]
+            obs["eqcp"] = [_mant(k, int(e)) for k, e in zip(es.eq_constants(eq_params=values(ev["K"], kexp)), kexp)]
+            a2 = np.array([[float(v) for v in fc], [float(v) for v in feq]])
+            a2_before = a2.copy()
+            es.equilibrium_quotients(a2)
+            if not np.array_equal(a2, a2_before):
+                obs["mut"].append("concs")
         except Exception as ex:
             obs["helpers_raised"] = type(ex).__name__ + ": " + str(ex)[:120]
         out.append(obs)
@@ -218,6 +246,7 @@ def disagreements(inp, exp, obs, nth=0, pert=None):
     opt = inp.get("opt", DEFAULT_OPT)
     if list(opt) != DEFAULT_OPT:
         cfg["backend"] = opt[0]
+        cfg["consts"] = "params" if opt[1] else "ownK"
         cfg["opt"] = "%s/%s/%s/%s/%s" % (opt[0], "params" if opt[1] else "ownK", opt[2], opt[3], opt[4])
     evs_ = evaluations_of(inp)
     if any(int(e) != 0 for e in evs_[min(nth, len(evs_) - 1)]["dexp"]):
@@ -256,6 +285,12 @@ def disagreements(inp, exp, obs, nth=0, pert=None):
                 bad.append(dict(fn="stoichs_constants", what="value"))
             if obs["eqc"] != exp["sysK"]:
                 bad.append(dict(fn="eq_constants", what="value"))
+            if obs["eqcs"] != exp["sysK"]:
+                bad.append(dict(fn="eq_constants", what="value-with-small"))
+            if obs["eqcp"] != inp["K"]:
+                bad.append(dict(fn="eq_constants", what="value-eq_params"))
+            if obs["mut"]:
+                bad.append(dict(fn=fn, what="argument-modified", **cfg))
     return bad
 
 
@@ -387,7 +422,7 @@ def gen_trace(pool, rng, max_rxns):
         rids, species, nu = pool.system(rids)
         opt = rng.choice(OPTIONS) if rng.random() < 0.6 else list(DEFAULT_OPT)
         # other constants can only be handed to a re-used object when they travel in params
-        evs = [_gen_eval(rng, nu, len(species)) for _ in range(rng.choice([1, 1, 2, 2, 3]) if opt[1] else 1)]
+        evs = [_gen_eval(rng, nu, len(species)) for _ in range(rng.choice([1, 1, 2, 2, 3]))]
         if any(e is None for e in evs):
             continue
         re_, rp = rng.choice(FLAGS)
@@ -423,9 +458,10 @@ def _enc(v):
     return v
 
 
-OBS_FIELDS = ("raised", "len", "cls", "q", "keys", "totc", "tot0", "totcT", "tot0T", "qarr", "totd", "scA", "scK", "eqc")
+OBS_FIELDS = ("raised", "len", "cls", "q", "keys", "totc", "tot0", "totcT", "tot0T", "qarr", "totd", "scA", "scK", "eqc",
+              "eqcs", "eqcp", "mut")
 OPTIONS = [[b, n, o, f, w] for b in ("sympy", "numpy", "math") for n in (True, False) for o in ("asc", "rev")
-           for f in ("comp", "formula") for w in ("net", "net", "self", "other", "inact")]
+           for f in ("comp", "formula", "alias") for w in ("net", "net", "self", "other", "inact")]
 
 
 def run_trace(g):
@@ -468,6 +504,7 @@ def _trace_key(inp, obs, clause, nth=0):
         opt = inp.get("opt", DEFAULT_OPT)
         if list(opt) != DEFAULT_OPT:
             key["backend"] = opt[0]
+            key["consts"] = "params" if opt[1] else "ownK"
             key["opt"] = "%s/%s/%s/%s/%s" % (opt[0], "params" if opt[1] else "ownK", opt[2], opt[3], opt[4])
         evs_ = evaluations_of(inp)
         if any(int(e) != 0 for e in evs_[min(nth, len(evs_) - 1)]["dexp"]):
@@ -487,7 +524,7 @@ def _trace_key(inp, obs, clause, nth=0):
 # ------------------------------------------------------------------ run
 def run(ctx):
     slices = QUICK if ctx.quick else THOROUGH
-    per_slice = 1000 if ctx.quick else 35000
+    per_slice = 800 if ctx.quick else 25000
     pool_cases = None
     for sl in slices:
         history = sl.startswith("hist")
@@ -504,6 +541,11 @@ def run(ctx):
         kinds = collections.Counter(c["in"]["pert"]["kind"] for c in cases)
         if sl == "sys_q" and len({c["in"]["opt"][4] for c in cases}) < 4:
             raise core.MachineryFailure("vacuity: written forms missing in slice %s" % sl)
+        if sl.startswith("single"):
+            zeros = sum(1 for c in cases if any(int(v[0]) == 0 for v in c["in"]["c0"]))
+            ctx.counters["cases_with_a_zero_initial_concentration"] += zeros
+            if zeros < 100:
+                raise core.MachineryFailure("vacuity: %d cases with an exactly zero initial concentration in %s" % (zeros, sl))
         if sl.startswith("trace"):
             tiny = sum(1 for c in cases if min(c["in"]["Kexp"]) <= -18 and not c["in"]["opt"][1])
             ctx.counters["trace_scale_cases_ownK_K_below_1e-17"] += tiny
@@ -511,9 +553,9 @@ def run(ctx):
                 raise core.MachineryFailure("vacuity: %d trace-scale cases with tiny own constants in %s" % (tiny, sl))
         if sl.startswith("opts"):
             seen_opts = {tuple(c["in"]["opt"]) for c in cases}
-            if len(seen_opts) < 28 or len({o[4] for o in seen_opts}) < 4:
+            if len(seen_opts) < 20 or len({o[4] for o in seen_opts}) < 4 or len({o[3] for o in seen_opts}) < 3:
                 raise core.MachineryFailure("vacuity: only %d option bundles in slice %s" % (len(seen_opts), sl))
-        for k in (("none", "scale", "shift0") if sl.startswith("trace") else ("none", "extent") if few_kinds
+        for k in (("none", "scale", "shift0") if sl.startswith("trace") else ("none",) if sl == "hist_q" else ("none", "extent") if few_kinds
                   else ("none", "extent", "scale", "shift0")):
             if not kinds[k]:
                 raise core.MachineryFailure("vacuity: no %s case in slice %s" % (k, sl))
@@ -548,7 +590,7 @@ def run(ctx):
     pool = Pool(pool_cases)
     if len(pool.rx) < 8:
         raise core.MachineryFailure("pool reconstruction from single-reaction cases found %d reactions" % len(pool.rx))
-    n = 1000 if ctx.quick else 9000
+    n = 800 if ctx.quick else 7000
     gens = [gen_trace(pool, ctx.rng, 4) for _ in range(n)]
     outs = ctx.pmap(run_trace, gens)
     for o in outs:
